@@ -56,6 +56,11 @@ type Options struct {
 	MetaLimit       int      `json:"metaLimit,omitempty"` // 0 = default
 	TimeSkew        bool     `json:"timeSkew,omitempty"`  // false = skew check disabled
 	BoltSync        bool     `json:"boltSync,omitempty"`  // true = real fsync (C15)
+	// ClockHook, if set, is called whenever the server or the backend reads the clock.
+	ClockHook func() `json:"-"`
+	// BoltCopyOf, if set, is a bolt database file that is copied into the new stack before it is
+	// opened (C15: the file as a kill -9 at some instant would have left it).
+	BoltCopyOf string `json:"-"`
 	StreamBuf       int      `json:"streamBuf,omitempty"` // MemStream: consumer buffer size (default 32 KiB)
 	// PutHook, if set, is called at the start of every Backend.PutObject (schedule control:
 	// the harness can hold an upload or a multipart completion at the storage boundary).
@@ -91,6 +96,18 @@ func New(kind Kind, o Options) (*Stack, error) {
 			return nil, err
 		}
 		s.dir = d
+	}
+	if o.ClockHook != nil {
+		s.Clock = &hookedClock{TimeSourceAdvancer: s.Clock, hook: o.ClockHook}
+	}
+	if kind == Bolt && o.BoltCopyOf != "" {
+		b, err := os.ReadFile(o.BoltCopyOf)
+		if err != nil {
+			return nil, err
+		}
+		if err := os.WriteFile(filepath.Join(s.dir, "s3.db"), b, 0600); err != nil {
+			return nil, err
+		}
 	}
 	if kind == MultiMem || kind == SingleMem {
 		s.memFs = afero.NewMemMapFs()
@@ -373,4 +390,23 @@ func (h *hookBackend) PutObject(bucket, key string, meta map[string]string, inpu
 type hookVersioned struct {
 	*hookBackend
 	gofakes3.VersionedBackend
+}
+
+// hookedClock reports every reading of the clock to the harness.
+type hookedClock struct {
+	gofakes3.TimeSourceAdvancer
+	hook func()
+}
+
+func (c *hookedClock) Now() time.Time {
+	c.hook()
+	return c.TimeSourceAdvancer.Now()
+}
+
+// BoltFile is the path of the stack's bolt database ("" for the other kinds).
+func (s *Stack) BoltFile() string {
+	if s.Kind != Bolt {
+		return ""
+	}
+	return filepath.Join(s.dir, "s3.db")
 }
